@@ -326,8 +326,9 @@ class AnsiString:
         # Limit to the end of the string so that no marker is ever placed beyond it
         end = min(self._slice_val_to_idx(end, len(self._s)), len(self._s))
 
-        if not settings or start >= len(self._s) or end <= start:
-            # Ignore - nothing to apply
+        is_int = isinstance(settings, int) and not isinstance(settings, bool)
+        if (not settings and not is_int) or start >= len(self._s) or end <= start:
+            # Ignore - nothing to apply (note: the integer 0 is the RESET directive, not an empty setting)
             return
 
         ansi_settings = _AnsiSettingPoint._scrub_ansi_settings(settings, make_unique=True)
@@ -389,12 +390,13 @@ class AnsiString:
         # Limit to the end of the string so that no marker is ever placed beyond it
         end = min(self._slice_val_to_idx(end, len(self._s)), len(self._s))
 
-        if (settings is not None and not settings) or start >= len(self._s) or end <= start:
-            # Ignore - nothing to apply
+        is_int = isinstance(settings, int) and not isinstance(settings, bool)
+        if (settings is not None and not settings and not is_int) or start >= len(self._s) or end <= start:
+            # Ignore - nothing to apply (note: the integer 0 is the RESET directive, not an empty setting)
             return
 
         # Parse the settings before anything is modified since this raises an exception for invalid settings
-        if not settings:
+        if settings is None:
             ansi_settings = None
         else:
             ansi_settings = _AnsiSettingPoint._scrub_ansi_settings(settings)
